@@ -24,6 +24,7 @@
 #include <malloc.h>
 #include <locale.h>
 #include <fenv.h>
+#include <errno.h>
 extern "C" {
 #include "xraylib.h"
 }
@@ -505,6 +506,33 @@ __attribute__((no_sanitize("address"))) static unsigned long long fnv_ranges(con
   return h;
 }
 
+// the executable's own static TLS block of the calling thread: everything thread-local that was linked in statically (libxrl.a and this file).
+// x86-64 (TLS variant II): the block of the main executable ends at the thread pointer and starts memsz (rounded up to its alignment) below it.
+#include <link.h>
+static int tls_phdr_cb(struct dl_phdr_info *info, size_t, void *data) {
+  unsigned long *out = (unsigned long *) data;
+  if (out[2]) return 0;             // first object = the main executable
+  out[2] = 1;
+  for (int i = 0; i < info->dlpi_phnum; i++)
+    if (info->dlpi_phdr[i].p_type == PT_TLS) { out[0] = info->dlpi_phdr[i].p_memsz; out[1] = info->dlpi_phdr[i].p_align ? info->dlpi_phdr[i].p_align : 1; }
+  return 0;
+}
+__attribute__((no_sanitize("address"))) static unsigned long long fnv_tls() {
+#if defined(__x86_64__)
+  unsigned long v[3] = {0, 1, 0};
+  dl_iterate_phdr(tls_phdr_cb, v);
+  if (!v[0]) return 0;
+  unsigned long size = (v[0] + v[1] - 1) / v[1] * v[1];
+  unsigned long tp = (unsigned long) __builtin_thread_pointer();
+  const unsigned char *p = (const unsigned char *) (tp - size);
+  unsigned long long h = 1469598103934665603ULL;
+  for (unsigned long i = 0; i < size; i++) { h ^= p[i]; h *= 1099511628211ULL; }
+  return h;
+#else
+  return 0;
+#endif
+}
+
 static std::vector<std::string> read_lines(const char *path) {
   std::vector<std::string> v;
   FILE *f = fopen(path, "r");
@@ -581,19 +609,25 @@ int main(int argc, char **argv) {
     setlocale(LC_ALL, "C.utf8");
     std::string loc0 = std::string(setlocale(LC_ALL, NULL)) + "|" + setlocale(LC_NUMERIC, NULL);
     char cwd0[4096]; if (!getcwd(cwd0, sizeof cwd0)) cwd0[0] = 0;
-    unsigned long long ck0 = fnv_ranges(ranges);
+    unsigned long long ck0 = fnv_ranges(ranges) ^ fnv_tls();
     int fe_round0 = fegetround(), fe_exc0 = fegetexcept();      // floating-point environment of the caller: rounding mode, trapping mask
     mode_t um0 = umask(0); umask(um0);
     int so_saved = dup(1); int so_fd = memfd_create("xrlcall-stdout", 0); fflush(stdout); dup2(so_fd, 1);
     capture_begin();
     std::vector<std::string> res;
-    for (auto &l : lines) res.push_back(run_keep(l));
+    {
+      // the caller's thread carries whatever errno its own earlier work left: a different stale value before every call of the history
+      // (the fresh-process reference runs with errno 0); nothing the library answers may depend on it
+      static const int stale[] = {0, ERANGE, EDOM, ENOENT, EINVAL, 0, ERANGE};
+      size_t k = 0;
+      for (auto &l : lines) { errno = stale[(k++ * 7 + l.size()) % 7]; res.push_back(run_keep(l)); }
+    }
     std::string serr = capture_end();
     fflush(stdout); dup2(so_saved, 1);
     off_t n = lseek(so_fd, 0, SEEK_END);
     std::string sout((size_t) (n > 0 ? n : 0), 0);
     if (n > 0 && pread(so_fd, &sout[0], (size_t) n, 0) < 0) sout.clear();
-    unsigned long long ck1 = fnv_ranges(ranges);
+    unsigned long long ck1 = fnv_ranges(ranges) ^ fnv_tls();
     std::string loc1 = std::string(setlocale(LC_ALL, NULL)) + "|" + setlocale(LC_NUMERIC, NULL);
     char cwd1[4096]; if (!getcwd(cwd1, sizeof cwd1)) cwd1[0] = 0;
     bool errs_ok = true;
